@@ -1,4 +1,4 @@
-\* protocol as implemented, 1 connection x 2 callers, heads 0..3, clock 0..4
+\* protocol before the repairs (all Fix* = FALSE; kept as a leads generator: only the safety part is checked), 1 connection x 2 callers, heads 0..3, clock 0..4
 CONSTANTS
   NC = 1
   Waiters = {w1, w2}
